@@ -109,6 +109,11 @@ func schemas() []named {
 		{"Email()", "format", types.Email()}, {"URL()", "format", types.URL()}, {"IPv4()", "format", types.IPv4()}, {"CIDRv4()", "format", types.CIDRv4()},
 		{"Enum(\"a\",\"b\")", "enum", types.Enum("a", "b")}, {"Enum(1,2)", "enum", types.Enum(1, 2)},
 		{"Literal(\"a\")", "literal", types.Literal("a")}, {"Literal(1.5)", "literal", types.Literal(1.5)},
+		{"LiteralOf[any]([a,1,true])", "literal", types.LiteralOf([]any{"a", 1, true})},
+		{"EnumSlice[any]([a,1,true])", "enum", types.EnumSlice([]any{"a", 1, true})},
+		{"Enum[any](a,2.5)", "enum", types.Enum[any]("a", 2.5)},
+		{"EnumSlice[any]([S1{}])", "enum", types.EnumSlice([]any{cx.S1{}, "z"})},
+		{"LiteralOf[any]([S1{},nil-free])", "literal", types.LiteralOf([]any{cx.S1{A: 1}, [1]any{"q"}})},
 		{"Nil()", "nil", types.Nil()}, {"Any()", "any", types.Any()}, {"Unknown()", "unknown", types.Unknown()}, {"Never()", "never", types.Never()},
 		{"File()", "file", types.File()}, {"Function()", "function", types.Function()},
 		{"Slice[any](Int())", "slice", types.Slice[any](types.Int())}, {"Slice[int](Int()).Min(1)", "slice", types.Slice[int](types.Int()).Min(1)},
@@ -211,6 +216,13 @@ func values() []val {
 		{"reflect.Value", reflect.ValueOf(1)}, {"reflect.Type", reflect.TypeFor[int]()},
 		{"deep-slice-60", deep(60)}, {"deep-map-40", deepMap(40)}, {"[]any-with-func", []any{fn, ch, nil}},
 		{"schema-as-value", types.String()},
+		{"struct-holding-slice", struct{ X any }{[]int{1}}}, {"array-holding-map", [1]any{map[string]int{"a": 1}}},
+		{"S1-holding-slice", cx.S1{A: []int{1}}}, {"S1-holding-func", cx.S1{B: fn}}, {"array-of-any-holding-S1-slice", [1]any{cx.S1{A: []any{}}}},
+		{"map-disc-struct-holding-slice", map[string]any{"t": struct{ X any }{[]int{1}}}},
+		{"map-disc-array-holding-map", map[string]any{"t": [1]any{map[string]int{}}}},
+		{"map-disc-S1-holding-slice", map[string]any{"t": cx.S1{A: []int{1}}, "n": 1}},
+		{"[]any-holding-struct-holding-slice", []any{struct{ X any }{[]int{1}}, cx.S1{A: []int{1}}}},
+		{"map[any]struct{}-struct-key", map[any]struct{}{cx.S1{A: 1}: {}}},
 	}
 }
 
@@ -268,7 +280,7 @@ func run(c hx.Config) error {
 		for _, method := range []string{"Parse", "ParseAny", "StrictParse"} {
 			for _, v := range vals {
 				in := cx.Clone(v.v)
-				if v.name == "reflect.Value" || v.name == "chan" || v.name == "func" || v.name == "unsafe.Pointer" || v.name == "schema-as-value" {
+				if v.name == "reflect.Type" || v.name == "big.Int" || v.name == "*time" || v.name == "error" || v.name == "reflect.Value" || v.name == "chan" || v.name == "func" || v.name == "unsafe.Pointer" || v.name == "schema-as-value" {
 					in = v.v
 				}
 				obs, called := call(s.z, method, in)
@@ -278,6 +290,58 @@ func run(c hx.Config) error {
 				}
 				o.Emit(fmt.Sprintf("c04 x %s %s %s # %s %s.%s(%s)", s.kind, method, strings.ReplaceAll(v.name, " ", "_"), s.kind, s.name, method, v.name), obs)
 				o.Count("x:" + s.kind + ":" + strings.SplitN(obs, ":", 2)[0])
+			}
+		}
+	}
+	// every schema in nested position (object field, union option, Slice[any] element, record/map value,
+	// tuple item, lazy target) × the unhashable / comparable-but-holding-unhashable value classes
+	nasty := []val{}
+	for _, v := range vals {
+		switch v.name {
+		case "[]int", "map[string]any", "func", "chan", "struct-holding-slice", "array-holding-map", "S1-holding-slice", "S1-holding-func",
+			"array-of-any-holding-S1-slice", "map-unhashable-disc", "map-disc-struct-holding-slice", "map-disc-array-holding-map",
+			"map-disc-S1-holding-slice", "[][]int", "nil", "string-a", "NaN":
+			nasty = append(nasty, v)
+		}
+	}
+	for _, s := range schemas() {
+		inner := s.z
+		wraps := []struct {
+			name string
+			z    core.ZodSchema
+			wrap func(any) any
+		}{
+			{"Object{f:%s}", types.Object(core.ObjectSchema{"f": inner}), func(x any) any { return map[string]any{"f": x} }},
+			{"Union([Never(),%s])", types.Union([]any{types.Never(), inner}), func(x any) any { return x }},
+			{"Xor([%s,Never()])", types.Xor([]any{inner, types.Never()}), func(x any) any { return x }},
+			{"Slice[any](%s)", types.Slice[any](inner), func(x any) any { return []any{x, x} }},
+			{"Record(String(),%s)", types.Record(types.String(), inner), func(x any) any { return map[string]any{"k": x} }},
+			{"Map(Any(),%s)", types.Map(types.Any(), inner), func(x any) any { return map[any]any{"k": x} }},
+			{"Tuple(%s)", types.Tuple(inner), func(x any) any { return []any{x} }},
+			{"Array([%s])", types.Array([]any{inner}), func(x any) any { return []any{x} }},
+			{"LazyAny(%s)", types.LazyAny(func() any { return inner }), func(x any) any { return x }},
+			{"Intersection(%s,Any())", types.Intersection(inner, types.Any()), func(x any) any { return x }},
+			{"Struct[S1]{A:%s}", types.Struct[cx.S1](core.StructSchema{"A": inner}), func(x any) any { return cx.S1{A: x} }},
+		}
+		for _, w := range wraps {
+			for _, v := range nasty {
+				in := w.wrap(v.v)
+				var obs string
+				p := hx.Safely(func() {
+					_, err := w.z.ParseAny(in)
+					obs = shape(err)
+				})
+				switch {
+				case p != "":
+					obs = "panic:" + classify(p)
+				case strings.HasPrefix(obs, "err(malformed:"):
+					obs = "malformed:" + strings.TrimSuffix(strings.TrimPrefix(obs, "err(malformed:"), ")")
+				default:
+					obs = "total"
+				}
+				nm := fmt.Sprintf(w.name, s.name)
+				o.Emit(fmt.Sprintf("c04 x %s ParseAny nested:%s # %s %s.ParseAny(<%s> wrapped)", s.kind, strings.ReplaceAll(v.name, " ", "_"), s.kind, nm, v.name), obs)
+				o.Count("xnest:" + s.kind + ":" + strings.SplitN(obs, ":", 2)[0])
 			}
 		}
 	}
